@@ -114,6 +114,54 @@ func evalC07opt(depth int, grid []Cfg, light bool) func(x *Ctx, in Input) {
 	}
 }
 
+// evalC07Repeat: no map-order deviations, deeper inputs: the same call is made again at once and once more after a
+// call on a DIFFERENT input (the previous one of the enumeration); all three must return the same layout, and the
+// uninstrumented build in a fresh process must return it too (validation slice). What this sees that the deviation
+// search on shallow inputs does not: state that survives a call inside the library (a pooled or cached object, a
+// counter) and only matters for inputs with >= 5 edges.
+func evalC07Repeat(grid []Cfg) func(x *Ctx, in Input) {
+	var prev *Input
+	return func(x *Ctx, in Input) {
+		other := prev
+		cp := in.Clone()
+		prev = &cp
+		for _, c := range grid {
+			c := c
+			if !x.Unit(&c) {
+				continue
+			}
+			r0 := x.Run(in, c, nil)
+			base := r0.Ser()
+			if x.InValidationSlice() || x.valMode {
+				x.Validate(base)
+			}
+			if x.valMode {
+				continue
+			}
+			if !r0.OK() {
+				x.Blocked(r0)
+				continue
+			}
+			if r0.InputMutated {
+				x.Violate("C07:input-mutated", &c, nil, "Layout modified the caller's edge list or size map")
+			}
+			if r1 := x.Run(in, c, nil); !bytes.Equal(r1.Ser(), base) {
+				x.Violate("C07:repeat-differs", &c, nil, "the same call repeated in the same process returned a different layout\nfirst:\n"+describeLayout(r0.L)+"second:\n"+describeLayout(r1.L))
+				continue
+			}
+			if other != nil {
+				x.Run(*other, c, nil)
+				if r2 := x.Run(in, c, nil); !bytes.Equal(r2.Ser(), base) {
+					x.Violate("C07:repeat-differs", &c, map[string]any{"call_in_between": other.E}, fmt.Sprintf("the same call returned a different layout after a call on another graph (%v) in between\nfirst:\n%safter:\n%s", other.E, describeLayout(r0.L), describeLayout(r2.L)))
+					continue
+				}
+			}
+			x.Nontrivial(base)
+		}
+		x.Sample(map[string]any{"input": in.E})
+	}
+}
+
 func init() {
 	checks["C07"] = func(tier string) []*Pass {
 		main := append(gridSpec{P1: allP1, P2: allP2, P4: []int{0, 1, 2, 3, 4}, P5: []int{2}, SZ: []int{2}}.list(),
@@ -161,6 +209,8 @@ func init() {
 			},
 			Eval:  evalC07(1, gridSpec{P1: []int{0}, P2: allP2, P4: []int{0, 3}, P5: []int{2}, SZ: []int{4}}.list()),
 			Bound: "all edge lists with <=3 edges x 13 assignments of adversarial names (leading/trailing whitespace, case variants, composed/decomposed Unicode, helper-node look-alikes, empty string) x {ns,lp} x {sink,ns}: caller's edge list and size map unmodified, <=1 deviation"})
+		ps = append(ps, &Pass{Name: "G-repeat", Space: spaceG(d+1, d+2, 0, nil), Eval: evalC07Repeat([]Cfg{{P1: 0, P2: 0, P4: 0, P5: 2, SZ: 1, NS: 4, LS: 8, TH: -1}, {P1: 1, P2: 1, P4: 4, P5: 3, SZ: 2, NS: 4, LS: 8, TH: -1}}), BudgetS: 10, HeapMB: 512,
+			Bound: fmt.Sprintf("all edge lists with %d..%d edges x {greedy/ns/sink/polyline, dfs/lp/b&k/ortho}: the same call repeated at once and again after a call on another graph returns the same layout (no map-order deviations at this depth)", d+1, d+2)})
 		ps = append(ps, &Pass{Name: "option-sequences", Space: optSequences(3), Eval: evalC07Options, BudgetS: 10, HeapMB: 512,
 			Bound: fmt.Sprintf("every sequence of <=3 options from an alphabet of %d (two different size maps, fixed size, spacings incl. 0, positioners, routers, breaker, layerer, virtual-node output, thoroughness, forced b&k layout) x %d graphs: caller's edge slice and every size map unchanged, the same call repeated after a different call returns the same layout", len(optAlphabet), len(optGraphs))})
 		if tier == "thorough" {
